@@ -8,8 +8,6 @@ package main
 import (
 	"encoding/hex"
 
-	"google.golang.org/protobuf/encoding/protowire"
-
 	"verif/harness/hx"
 )
 
@@ -101,27 +99,6 @@ func genProto(r *hx.Rand, depth int, padTags bool) []byte {
 		}
 	}
 	return b
-}
-
-// normTags re-encodes the tag of every top-level field minimally and keeps the value bytes (what
-// protobuf-go does when it stores a field it does not know); nil when b is not well-formed.
-func normTags(b []byte) []byte {
-	out := []byte{}
-	for len(b) > 0 {
-		num, typ, n := protowire.ConsumeTag(b)
-		if n < 0 {
-			return nil
-		}
-		b = b[n:]
-		m := protowire.ConsumeFieldValue(num, typ, b)
-		if m < 0 {
-			return nil
-		}
-		out = protowire.AppendTag(out, num, typ)
-		out = append(out, b[:m]...)
-		b = b[m:]
-	}
-	return out
 }
 
 func hx2(b []byte) string { return hex.EncodeToString(b) }
